@@ -45,7 +45,7 @@ def make_reactor(substrate, template, *, invert: bool, strategy: str, mode: str,
     from synkit.Synthesis.Reactor.syn_reactor import SynReactor
     if mode == "rendered":
         return SynReactor(substrate, template, invert=invert, strategy=strategy, automorphism=automorphism)
-    if mode == "implicit":
+    if mode in ("implicit", "implicit-x"):
         return SynReactor(substrate, template, invert=invert, explicit_h=False, implicit_temp=True, strategy=strategy, automorphism=automorphism)
     return SynReactor(substrate, template, invert=invert, explicit_h=True, implicit_temp=False, strategy=strategy, automorphism=automorphism)
 
@@ -80,7 +80,13 @@ def result_case(reactor, mode: str, max_results: int = 12) -> Optional[Dict[str,
             m = [pos.get(mm.get(p), 0) for p in rids]
             if 0 in m:
                 m = []
-        results.append({"its": strip(chem.its_abs(I, L)), "m": m})
+        if all(v in I for v in L):
+            results.append({"its": strip(chem.its_abs(I, L)), "m": m})
+        else:
+            # this result renders other hydrogens as atoms than its siblings: it gets its own index list (and the substrate on it)
+            hs = set(hids)
+            Lk = hids + sorted((v for v in I.nodes() if v not in hs), key=lambda x: (str(type(x)), x))
+            results.append({"its": strip(chem.its_abs(I, Lk)), "m": [], "host": host_mol_abs(host, Lk)})
     return {"host": host_mol_abs(host, L), "rc": strip(chem.its_abs(rc, rids)), "mode": mode, "results": results,
             "n_its": len(its_list), "n_maps": len(maps)}
 
